@@ -34,14 +34,17 @@ RULE = ("a case is a block of region instances of one class (rectangle, ellipse,
         "presentation of ~250 points (lattice, random, boundary +- k*tol, far). evaluation = one contains call "
         "compared with the reference; non-trivial = it had compared points both inside and outside; distinct = "
         "distinct (class, variant, theta class, step kinds so far, presentation, chunking) fingerprints.")
-ASSUMPTIONS = ["boundary band margin in full: 1e-7 x largest half-extent + 1e-10 x max(largest |coordinate| of the region, 1e-3)",
+ASSUMPTIONS = ["boundary band margin in full: 1e-8 x largest half-extent + 1e-12 x largest |coordinate| of the region, times (1 + number of "
+               "transformations); float32 points or float32 region parameters: + 1e-6 x (extent + |coordinates|), because glue then "
+               "computes in single precision",
                "the reference geometry in vf/lib_C08_geom.py (rotate the point into the shape frame; radius; even-odd "
                "crossing number, cross-checked against exact rational arithmetic on samples; explicit homogeneous "
                "projection) is the specification",
-               "boundary band: margin 1e-7 x (largest half-extent) + 1e-10 around the boundary; to_polygon of curved shapes: "
+               "to_polygon of curved shapes: "
                "additionally 1e-3 x extent (100-vertex discretisation, sagitta 5e-4 r); points in the band are not compared",
-               "point sets are float64 / integer ndarrays (x and y of equal shape) or python scalars; lists, float32, "
-               "mismatched x/y shapes and non-finite coordinates are outside the stated domain",
+               "point sets are numeric ndarrays (float64, float32, big-endian, int8..int64, uint8..uint64; x and y of equal shape) or "
+               "python scalars; lists, object arrays, mismatched x/y shapes and non-finite coordinates are outside the stated domain",
+               "projected points whose rounding-error estimate (1e-14 x sum of |terms| / |w|) exceeds the band margin are not compared",
                "contains3d / CategoricalROI.contains are documented for arrays only: 0-d inputs are not generated for them",
                "rotate_to on a polygon is interpreted relative to the polygon's public `theta` attribute (reset to 0 by "
                "save/restore, which stores vertices only)",
@@ -56,12 +59,13 @@ ANCHORS = ["glue.core.roi:RectangularROI.contains", "glue.core.roi:EllipticalROI
 KINDS = ["rect", "ellipse", "circle", "annulus", "polygon", "range", "categorical", "proj3d"]
 CLASSNAME = {"rect": "RectangularROI", "ellipse": "EllipticalROI", "circle": "CircularROI", "annulus": "CircularAnnulusROI",
              "polygon": "PolygonalROI", "range": "RangeROI", "categorical": "CategoricalROI", "proj3d": "Projected3dROI"}
-BLOCKS = {"quick": {"rect": 46, "ellipse": 46, "circle": 18, "annulus": 18, "polygon": 62, "range": 18, "categorical": 36, "proj3d": 28},
+BLOCKS = {"quick": {"rect": 36, "ellipse": 36, "circle": 14, "annulus": 14, "polygon": 48, "range": 14, "categorical": 30, "proj3d": 22},
           "thorough": {"rect": 800, "ellipse": 800, "circle": 250, "annulus": 250, "polygon": 900, "range": 250,
                        "categorical": 150, "proj3d": 400}}
 PER_BLOCK = 8
-TOLF = 1e-7
-TOLA = 1e-10
+TOLF = 1e-8            # relative to the largest half-extent (float32-sized errors, 6e-8, must not hide in the band)
+TOLA = 1e-12           # relative to the largest |coordinate| (rounding of x - xc)
+TOL32 = 1e-6           # float32 points or float32 region parameters: glue computes in single precision
 POLY_MUL = 1e-3
 
 CHUNK = [None]          # substituted n_max for glue.core.roi.iterate_chunks (None = the real constant)
@@ -128,7 +132,7 @@ def _c(rng):
 
 
 def gen_rect(rng):
-    variant = rng.choice(["general", "general", "general", "thin", "tiny", "square", "int_params", "zero_width"])
+    variant = rng.choice(["general", "general", "general", "thin", "tiny", "square", "int_params", "zero_width", "origin"])
     theta, tcls, tgroup = theta_recipe(rng)
     cx, cy = _c(rng), _c(rng)
     w, h = rng.uniform(0.3, 4.0), rng.uniform(0.3, 4.0)
@@ -143,7 +147,10 @@ def gen_rect(rng):
         h = w
     elif variant == "zero_width":
         w = 0.0
-    if variant == "int_params":
+    if variant == "origin":
+        # falsy parameter values: a corner at (0, 0) (xmin = 0.0, ymin = 0 ...)
+        d = {"k": "rect", "xmin": 0.0, "xmax": w, "ymin": 0.0, "ymax": h, "theta": theta}
+    elif variant == "int_params":
         x0, y0 = rng.randint(-4, 2), rng.randint(-4, 2)
         d = {"k": "rect", "xmin": x0, "xmax": x0 + rng.randint(1, 5), "ymin": y0, "ymax": y0 + rng.randint(1, 5), "theta": theta}
     else:
@@ -152,7 +159,7 @@ def gen_rect(rng):
 
 
 def gen_ellipse(rng):
-    variant = rng.choice(["general", "general", "general", "thin", "tiny", "equal_radii", "int_params"])
+    variant = rng.choice(["general", "general", "general", "thin", "tiny", "equal_radii", "int_params", "origin"])
     theta, tcls, tgroup = theta_recipe(rng)
     rx, ry = rng.uniform(0.3, 3.0), rng.uniform(0.3, 3.0)
     if variant == "thin":
@@ -169,11 +176,13 @@ def gen_ellipse(rng):
              "theta": theta}
     else:
         d = {"k": "ellipse", "xc": _c(rng), "yc": _c(rng), "rx": rx, "ry": ry, "theta": theta}
+        if variant == "origin":
+            d["xc"], d["yc"] = 0.0, 0.0
     return d, {"variant": variant, "theta_class": tcls, "theta_group": tgroup}
 
 
 def gen_circle(rng):
-    variant = rng.choice(["general", "general", "tiny", "large", "int_params"])
+    variant = rng.choice(["general", "general", "tiny", "large", "int_params", "origin"])
     r = rng.uniform(0.2, 3.0)
     if variant == "tiny":
         r *= 1e-3
@@ -183,11 +192,13 @@ def gen_circle(rng):
         d = {"k": "circle", "xc": rng.randint(-3, 3), "yc": rng.randint(-3, 3), "r": rng.randint(1, 4)}
     else:
         d = {"k": "circle", "xc": _c(rng), "yc": _c(rng), "r": r}
+        if variant == "origin":
+            d["xc"], d["yc"] = 0.0, 0.0
     return d, {"variant": variant, "theta_class": "none", "theta_group": "none"}
 
 
 def gen_annulus(rng):
-    variant = rng.choice(["general", "general", "thin_ring", "tiny", "int_params", "small_hole"])
+    variant = rng.choice(["general", "general", "thin_ring", "tiny", "int_params", "small_hole", "origin"])
     ri = rng.uniform(0.2, 2.0)
     ro = ri + rng.uniform(0.2, 2.0)
     if variant == "thin_ring":
@@ -201,6 +212,8 @@ def gen_annulus(rng):
         d = {"k": "annulus", "xc": rng.randint(-3, 3), "yc": rng.randint(-3, 3), "ri": a, "ro": a + rng.randint(1, 3)}
     else:
         d = {"k": "annulus", "xc": _c(rng), "yc": _c(rng), "ri": ri, "ro": ro}
+        if variant == "origin":
+            d["xc"], d["yc"] = 0.0, 0.0
     return d, {"variant": variant, "theta_class": "none", "theta_group": "none"}
 
 
@@ -277,13 +290,13 @@ def gen_polygon(rng):
     if closed:
         vx, vy = vx + [vx[0]], vy + [vy[0]]
     d = {"k": "polygon", "vx": [float(v) for v in vx], "vy": [float(v) for v in vy]}
-    return d, {"variant": variant, "closed": closed, "vertex_input": rng.choice(["python", "numpy"]),
+    return d, {"variant": variant, "closed": closed, "vertex_input": rng.choice(["python", "python", "numpy", "numpy", "tuple"]),
                "signed_area_class": signed_area_class(d), "theta_class": "none", "theta_group": "none"}
 
 
 def gen_range(rng):
-    variant = rng.choice(["general", "general", "reversed", "tiny", "int_params"])
-    lo = _c(rng)
+    variant = rng.choice(["general", "general", "reversed", "tiny", "int_params", "origin"])
+    lo = 0.0 if variant == "origin" else _c(rng)
     hi = lo + rng.uniform(0.2, 4.0)
     if variant == "reversed":
         lo, hi = hi, lo
@@ -301,26 +314,60 @@ GEN2D = {"rect": gen_rect, "ellipse": gen_ellipse, "circle": gen_circle, "annulu
          "range": gen_range}
 
 
+PARAM_KEYS = ("xmin", "xmax", "ymin", "ymax", "theta", "xc", "yc", "rx", "ry", "r", "ri", "ro", "lo", "hi")
+PARAM_CONV = {"python_float": float, "python_int": int, "np_float64": np.float64, "np_float32": np.float32, "np_int64": np.int64}
+
+
+def choose_param_type(rng, desc, meta):
+    """Type of the numbers handed to the constructor.  float32 rounds: the descriptor is replaced by what the region
+    really is made of."""
+    if desc["k"] == "polygon":
+        meta["param_type"] = "vertices_" + meta["vertex_input"]
+        return desc
+    if meta["variant"] == "int_params":
+        meta["param_type"] = rng.choice(["python_int", "python_int", "np_int64"])
+        return desc
+    meta["param_type"] = rng.choice(["python_float", "python_float", "python_float", "np_float64", "np_float32"])
+    if meta["param_type"] == "np_float32":
+        desc = dict(desc)
+        for q in PARAM_KEYS:
+            if q in desc:
+                desc[q] = float(np.float32(desc[q]))
+        if desc["k"] == "rect" and (desc["xmax"] < desc["xmin"] or desc["ymax"] < desc["ymin"]):
+            meta["param_type"] = "python_float"
+    return desc
+
+
 def build2d(desc, meta):
     k = desc["k"]
+    ptype = meta.get("param_type", "python_float")
+    conv = PARAM_CONV.get(ptype, float)
+    c = lambda q: (desc[q] if ptype == "python_int" and not isinstance(desc[q], int) else conv(desc[q]))
+    theta = None
+    if k in ("rect", "ellipse"):
+        theta = desc["theta"] if ptype in ("python_int", "np_int64") else conv(desc["theta"])
+        if meta.get("theta_none"):
+            theta = None                         # documented: None means 0
     if k == "rect":
-        return RectangularROI(desc["xmin"], desc["xmax"], desc["ymin"], desc["ymax"], desc["theta"])
+        return RectangularROI(c("xmin"), c("xmax"), c("ymin"), c("ymax"), theta)
     if k == "ellipse":
-        return EllipticalROI(desc["xc"], desc["yc"], desc["rx"], desc["ry"], desc["theta"])
+        return EllipticalROI(c("xc"), c("yc"), c("rx"), c("ry"), theta)
     if k == "circle":
-        return CircularROI(desc["xc"], desc["yc"], desc["r"])
+        return CircularROI(c("xc"), c("yc"), c("r"))
     if k == "annulus":
-        return CircularAnnulusROI(desc["xc"], desc["yc"], desc["ri"], desc["ro"])
+        return CircularAnnulusROI(c("xc"), c("yc"), c("ri"), c("ro"))
     if k == "polygon":
         if meta.get("vertex_input") == "numpy":
             return PolygonalROI(np.array(desc["vx"]), np.array(desc["vy"]))
+        if meta.get("vertex_input") == "tuple":
+            return PolygonalROI(tuple(desc["vx"]), tuple(desc["vy"]))
         return PolygonalROI(list(desc["vx"]), list(desc["vy"]))
     if k == "range":
         if desc["cls"] == "XRangeROI":
-            return XRangeROI(desc["lo"], desc["hi"])
+            return XRangeROI(c("lo"), c("hi"))
         if desc["cls"] == "YRangeROI":
-            return YRangeROI(desc["lo"], desc["hi"])
-        return RangeROI(desc["ori"], desc["lo"], desc["hi"])
+            return YRangeROI(c("lo"), c("hi"))
+        return RangeROI(desc["ori"], c("lo"), c("hi"))
     raise ValueError(k)
 
 
@@ -340,7 +387,9 @@ class Live:
         self.scale = G.scale_of(desc)
         self.f = float(meta.get("f", 1.0))                      # similarity factor of the magnitude class (1e-6 | 1 | 1e6)
         self.mag = max(G.magnitude_of(desc), 1e-3 * self.f)
-        self.add = TOLF * self.scale + TOLA * max(self.mag, 1e-3)
+        self.add = TOLF * self.scale + TOLA * self.mag
+        if meta.get("param_type") == "np_float32":
+            self.add += TOL32 * (self.scale + self.mag)
         self.model_theta = float(desc.get("theta", 0.0))
         c = G.centre_of(desc)
         self.model_centre = None if c is None else tuple(float(v) for v in c)
@@ -368,7 +417,17 @@ class Live:
 
     def struct(self):
         """Structural features of the live object for signatures."""
-        s = {"roi": CLASSNAME[self.kind], "shape": self.kind, "variant": self.meta["variant"], "magnitude": self.meta.get("magnitude", "1")}
+        s = {"roi": CLASSNAME[self.kind], "shape": self.kind, "variant": self.meta["variant"], "magnitude": self.meta.get("magnitude", "1"),
+             "param_type": self.meta.get("param_type", "python_float")}
+        # what the live object holds now (a restored region has Python numbers whatever it was built from)
+        inner = getattr(self.roi, "roi_2d", self.roi)
+        for att in ("xmin", "xc", "min"):
+            v = getattr(inner, att, None)
+            if v is not None and self.kind != "polygon":
+                s["param_type"] = ("np_" + type(v).__name__) if isinstance(v, np.generic) else ("python_" + type(v).__name__)
+                break
+        if s["param_type"] in ("np_float32", "np_int64"):
+            s["numpy_non_float64_parameters"] = True
         if self.kind in ("rect", "ellipse"):
             s["theta_group"] = theta_group_of(self.model_theta)
         if self.kind == "polygon":
@@ -450,7 +509,8 @@ def base_pool(rng, desc, add, f=1.0):
 
 
 PRESENTATIONS = ["flat", "flat", "2d", "3d", "fortran", "strided", "reversed", "broadcast", "scalar", "zero_d", "empty",
-                 "int_lattice", "readonly"]
+                 "int_lattice", "readonly", "single", "broadcast_scalar", "transposed_3d", "float32", "bigendian", "int_dtypes"]
+INT_DTYPES = ["i1", "i2", "<i4", "<i8", "u1", "u2", "<u4", "<u8", ">i4"]
 
 
 def present(rng, X, Y, kind, centre_hint):
@@ -504,6 +564,31 @@ def present(rng, X, Y, kind, centre_hint):
     if kind == "empty":
         shp = rng.choice([(0,), (0, 3), (2, 0)])
         return [(np.zeros(shp), np.zeros(shp))]
+    if kind == "single":
+        i = rng.randrange(n)
+        return [(X[i:i + 1].copy(), Y[i:i + 1].copy())]
+    if kind == "broadcast_scalar":
+        # x is one number broadcast to the shape (every stride 0), y varies
+        a, b = rng.randint(3, 9), rng.randint(3, 9)
+        i = rng.randrange(n)
+        ys = Y[[rng.randrange(n) for _ in range(a * b)]].reshape(a, b).copy()
+        return [(np.broadcast_to(X[i], (a, b)), ys)]
+    if kind == "transposed_3d":
+        a, b = rng.choice([(2, 3), (3, 4), (2, 5)])
+        c = n // (a * b)
+        m = a * b * c
+        return [(X[:m].reshape(a, b, c).copy().transpose(2, 0, 1), Y[:m].reshape(a, b, c).copy().transpose(2, 0, 1))]
+    if kind == "float32":
+        return [(X.astype("<f4"), Y.astype("<f4"))]
+    if kind == "bigendian":
+        return [(X.astype(">f8"), Y.astype(">f8"))]
+    if kind == "int_dtypes":
+        cx, cy = centre_hint
+        dt = np.dtype(rng.choice(INT_DTYPES))
+        lo = 0 if dt.kind == "u" else -120
+        cxi, cyi = min(max(int(round(cx)), lo + 6), 120), min(max(int(round(cy)), lo + 6), 120)
+        gx, gy = np.meshgrid(np.arange(cxi - 6, cxi + 7), np.arange(cyi - 6, cyi + 7))
+        return [(gx.astype(dt), gy.astype(dt))]
     if kind == "int_lattice":
         cx, cy = centre_hint
         ax = np.arange(int(round(cx)) - 6, int(round(cx)) + 7)
@@ -531,7 +616,11 @@ def compare(ctx, live, res, x, y, op, presentation, mul=0.0, extra_band=None, ex
         ctx.violation(dict(base, kind="result_not_boolean", dtype_kind=got.dtype.kind), detail(dtype=str(got.dtype)))
         raise Abort()
     ox, oy = live.inverse(xb, yb)
-    inside, band = G.classify(live.desc, ox, oy, mul=mul, add=live.add * (1.0 + len(live.chain)))
+    add = live.add * (1.0 + len(live.chain))
+    if presentation == "float32" and xb.size:
+        # single-precision points: glue evaluates x - xc etc. in float32 (6e-8 relative to the coordinates)
+        add += TOL32 * (live.scale + float(np.abs(xb).max()) + float(np.abs(yb).max()))
+    inside, band = G.classify(live.desc, ox, oy, mul=mul, add=add)
     if extra_band is not None:
         band = band | extra_band(ox, oy)
     cmp_ = ~band
@@ -579,7 +668,7 @@ def fraction_crosscheck(ctx, live):
             raise AssertionError("reference polygon oracle disagrees with exact arithmetic: %r %r %r" % (d, X[i], Y[i]))
 
 
-FULL_PRESENTATIONS = ["flat", "2d", "3d", "fortran", "strided", "reversed", "broadcast", "readonly"]
+FULL_PRESENTATIONS = ["flat", "2d", "3d", "fortran", "strided", "reversed", "broadcast", "readonly", "transposed_3d", "float32", "bigendian"]
 
 
 def check_contains(ctx, live, op, presentation=None):
@@ -593,8 +682,14 @@ def check_contains(ctx, live, op, presentation=None):
     hint = live.forward(np.array([(bb[0] + bb[1]) / 2.0]), np.array([(bb[2] + bb[3]) / 2.0]))
     args = present(rng, X, Y, presentation, (float(hint[0][0]), float(hint[1][0])))
     for (x, y) in args:
-        res = guarded(ctx, live, "contains", lambda: live.roi.contains(x, y), {"presentation": presentation, "after": op})
-        compare(ctx, live, res, x, y, op, presentation)
+        extra_sig = {}
+        if presentation == "int_dtypes":
+            dt = np.asarray(x).dtype
+            extra_sig = {"points_dtype": dt.str.lstrip("<>|"),
+                         "points_dtype_class": "narrow_or_unsigned_integer" if (dt.kind == "u" or dt.itemsize == 1) else "signed_integer"}
+            ctx.count("points_dtype:" + extra_sig["points_dtype"])
+        res = guarded(ctx, live, "contains", lambda: live.roi.contains(x, y), dict(extra_sig, presentation=presentation, after=op))
+        compare(ctx, live, res, x, y, op, presentation, extra_sig=extra_sig or None)
 
 
 # ---------------------------------------------------------------- steps
@@ -621,7 +716,8 @@ def polygon_centre(ctx, live, roi, inner=None):
 
 
 def centre_tol(live, *vals):
-    return 1e-9 * (live.mag + live.scale + sum(abs(v) for v in vals))
+    rel = TOL32 if live.meta.get("param_type") == "np_float32" else 1e-9
+    return rel * (live.mag + live.scale + sum(abs(v) for v in vals))
 
 
 def check_centre(ctx, live, op):
@@ -643,7 +739,7 @@ def check_centre(ctx, live, op):
 
 def signed_area_class(desc):
     """zero: the signed area is exactly 0 in rational arithmetic (collinear vertices, symmetric bow-tie, < 3 vertices);
-    near_zero: 0 < |A| < 1e-4 scale^2 - the centroid (a quotient by A) is ill-conditioned; regular otherwise."""
+    near_zero: 0 < |A| < 1e-2 scale^2 - the centroid (a quotient by A) is ill-conditioned; regular otherwise."""
     from fractions import Fraction
     vx, vy = desc["vx"], desc["vy"]
     n = len(vx)
@@ -653,7 +749,7 @@ def signed_area_class(desc):
         a += Fraction(vx[i]) * Fraction(vy[j]) - Fraction(vx[j]) * Fraction(vy[i])
     if a == 0:
         return "zero"
-    if abs(float(a)) / 2.0 < 1e-4 * G.scale_of(desc) ** 2:
+    if abs(float(a)) / 2.0 < 1e-2 * G.scale_of(desc) ** 2:
         return "near_zero"
     return "regular"
 
@@ -663,11 +759,11 @@ def polygon_centre_usable(live):
     return live.kind != "polygon" or live.meta["signed_area_class"] != "near_zero"
 
 
-def step_move(ctx, live):
+def step_move(ctx, live, target=None):
     rng = ctx.rng
     if live.kind == "range":
         c0 = float(guarded(ctx, live, "center", lambda: live.roi.center()))
-        t = round(rng.uniform(-6, 6), 3) * live.f
+        t = round(rng.uniform(-6, 6), 3) * live.f if target is None else target[0]
         guarded(ctx, live, "move_to", lambda: live.roi.move_to(t))
         d = t - c0
         live.chain.append(("move", d, 0.0) if live.desc["ori"] == "x" else ("move", 0.0, d))
@@ -679,6 +775,8 @@ def step_move(ctx, live):
             tx = c0[0]                          # pure vertical move
         elif rng.random() < 0.15:
             ty = c0[1]
+        if target is not None:
+            tx, ty = target
         guarded(ctx, live, "move_to", lambda: live.roi.move_to(tx, ty))
         live.chain.append(("move", tx - c0[0], ty - c0[1]))
         live.model_centre = (tx, ty)
@@ -688,10 +786,13 @@ def step_move(ctx, live):
     check_contains(ctx, live, "move_to")
 
 
-def step_rotate(ctx, live):
+def step_rotate(ctx, live, how=None, theta2=None):
     rng = ctx.rng
+    fixed = theta2
     theta2, tcls, tgroup = theta_recipe(rng)
-    how = rng.choice(["rotate_to", "rotate_to", "rotate_by"])
+    if fixed is not None:
+        theta2, tcls = fixed, "repeated"
+    how = rng.choice(["rotate_to", "rotate_to", "rotate_by"]) if how is None else how
     explicit = None
     c0 = polygon_centre(ctx, live, live.roi)
     if how == "rotate_by":
@@ -699,16 +800,28 @@ def step_rotate(ctx, live):
         guarded(ctx, live, "rotate_by", lambda: live.roi.rotate_by(dtheta))
     else:
         cur = float(live.roi.theta) if live.kind == "polygon" else live.model_theta
-        if live.kind == "polygon" and rng.random() < 0.3:
-            theta2 = cur + rng.choice([math.pi, -math.pi, 2 * math.pi, 3 * math.pi, math.pi / 2, math.pi + 1e-10])
+        if live.kind == "polygon" and fixed is None and rng.random() < 0.35:
+            # (cur, cur + 1e-10, cur + 1e-12: "unchanged" or nearly so - a skipped rotation is then within the band)
+            theta2 = cur + rng.choice([math.pi, -math.pi, 2 * math.pi, 3 * math.pi, math.pi / 2, math.pi + 1e-10, 0.0, 1e-10, 1e-12, -1e-8])
             tcls = "half_turn_family"
-        dtheta = theta2 - cur
-        if live.kind == "polygon" and rng.random() < 0.25:
+        if fixed is None and rng.random() < 0.06:
+            theta2, tcls = None, "none_means_zero"            # documented: rotate_to(None) == rotate_to(0)
+        dtheta = (0.0 if theta2 is None else theta2) - cur
+        if live.kind == "polygon" and theta2 is not None and rng.random() < 0.25:
             explicit = (round(rng.uniform(-3, 3), 2) * live.f, round(rng.uniform(-3, 3), 2) * live.f)
             guarded(ctx, live, "rotate_to", lambda: live.roi.rotate_to(theta2, center=explicit))
         else:
             guarded(ctx, live, "rotate_to", lambda: live.roi.rotate_to(theta2))
     centre = explicit if explicit is not None else c0
+    if live.kind == "polygon":
+        # PolygonalROI.rotate_to leaves the vertices alone when the change of angle is within 1e-9 rad of a full turn; the
+        # region may then be off by (that angle) x (distance from the centre of rotation), which for a far explicit centre
+        # and a tiny polygon exceeds the relative margin: the margin is widened by exactly that amount (and counted)
+        resid = abs(((dtheta + math.pi) % (2 * math.pi)) - math.pi)
+        if 0.0 < resid <= 1.000001e-9:
+            vx, vy = live.forward(np.array(live.desc["vx"]), np.array(live.desc["vy"]))
+            live.add += resid * float(np.hypot(vx - centre[0], vy - centre[1]).max())
+            ctx.count("polygon_rotations_within_snap_angle_margin_widened")
     live.chain.append(("rot", dtheta, centre))
     live.model_theta = live.model_theta + dtheta
     if live.model_centre is not None or live.kind == "polygon":
@@ -765,6 +878,26 @@ def step_to_polygon(ctx, live):
     compare(ctx, live, res, x, y, "to_polygon", presentation, mul=mul, extra_band=extra)
 
 
+def step_fault(ctx, live):
+    """Calls that must fail (text where numbers are expected, a missing coordinate), followed by a valid call on the same
+    object: whatever the failure left behind must not matter."""
+    raised = 0
+    for bad in (lambda: live.roi.contains(np.array(["a", "b"]), np.array(["c", "d"])),
+                lambda: live.roi.move_to(1.0 * live.f, None) if live.kind in ("rect", "polygon") else live.roi.contains(None, None),
+                lambda: live.roi.move_to(None) if live.kind == "range" else live.roi.contains(np.zeros(3), np.zeros((2, 2, 2)))):
+        try:
+            bad()
+            ctx.count("fault_calls_that_did_not_raise")
+        except Exception:
+            raised += 1
+    ctx.count("fault_calls_raised", raised)
+    live.ops.append("fault")
+    ctx.count("steps:fault")
+    if live.model_centre is not None and live.kind != "polygon":
+        check_centre(ctx, live, "fault")
+    check_contains(ctx, live, "fault")
+
+
 STEPS = {"rect": ["move", "rotate", "copy", "restore", "to_polygon"],
          "ellipse": ["move", "rotate", "copy", "restore", "to_polygon"],
          "circle": ["move", "copy", "restore", "to_polygon"],
@@ -779,15 +912,20 @@ def run_instance_2d(ctx, kind):
     desc, meta = GEN2D[kind](rng)
     # magnitude classes: the whole configuration (region, points, move targets) under the similarity p -> f p
     meta["magnitude"], meta["f"] = "1", 1.0
-    if meta["variant"] != "int_params" and rng.random() < 0.24:
-        meta["magnitude"], meta["f"] = rng.choice([("1e-6", 1e-6), ("1e6", 1e6)])
+    if meta["variant"] != "int_params" and rng.random() < 0.3:
+        meta["magnitude"], meta["f"] = rng.choice([("1e-10", 1e-10), ("1e-6", 1e-6), ("1e6", 1e6), ("1e12", 1e12)])
         desc = G.scaled(desc, meta["f"])
         if kind == "polygon":
             meta["signed_area_class"] = signed_area_class(desc)
+    desc = choose_param_type(rng, desc, meta)
+    if kind in ("rect", "ellipse") and desc["theta"] == 0.0 and rng.random() < 0.5:
+        meta["theta_none"] = True
+        ctx.count("constructed_with_theta_none")
     live = Live(kind, desc, meta, None)
     live.roi = guarded(ctx, live, "construct", lambda: build2d(desc, meta))
     live.pool = base_pool(rng, desc, live.add, live.f)
     ctx.count("magnitude:" + meta["magnitude"])
+    ctx.count("param_type:" + meta["param_type"])
     ctx.count("instances:" + CLASSNAME[kind])
     ctx.count("variant:%s:%s" % (kind, meta["variant"]))
     if kind == "polygon":
@@ -798,15 +936,44 @@ def run_instance_2d(ctx, kind):
     check_contains(ctx, live, "construct")
     check_contains(ctx, live, "construct")
     steps = [rng.choice(STEPS[kind]) for _ in range(rng.randint(2, 5))]
+    if kind in ("rect", "ellipse", "polygon", "circle") and rng.random() < 0.15:
+        # long histories of nothing but moves and rotations, the same step twice, there and back again
+        pool_ = ["move", "rotate", "move_twice", "rotate_twice"] if kind != "circle" else ["move", "move_twice"]
+        steps = [rng.choice(pool_) for _ in range(rng.randint(6, 12))] + ["back_to_start"]
+        ctx.count("long_move_rotate_histories")
+    if rng.random() < 0.12:
+        steps.insert(rng.randrange(len(steps) + 1), "fault")
+    start_centre = None
     usable = polygon_centre_usable(live)
     if not usable:
         ctx.count("polygon_near_zero_signed_area_move_rotate_skipped")
+    if usable and "back_to_start" in steps:
+        c = polygon_centre(ctx, live, live.roi)
+        start_centre, start_theta = c, (float(live.roi.theta) if kind == "polygon" else live.model_theta)
     for s in steps:
-        if s in ("move", "rotate") and not usable:
+        if s in ("move", "rotate", "move_twice", "rotate_twice", "back_to_start") and not usable:
             continue
         if s == "restore" and live.kind == "polygon":
             live.model_theta = 0.0
-        STEP_FN[s](ctx, live)
+        if s == "move_twice":
+            t = (round(rng.uniform(-6, 6), 3) * live.f, round(rng.uniform(-6, 6), 3) * live.f)
+            step_move(ctx, live, target=t)
+            step_move(ctx, live, target=t)
+            ctx.count("steps_repeated_identically")
+        elif s == "rotate_twice":
+            a = round(rng.uniform(-3, 3), 2)
+            step_rotate(ctx, live, how="rotate_to", theta2=a)
+            step_rotate(ctx, live, how="rotate_to", theta2=a)
+            ctx.count("steps_repeated_identically")
+        elif s == "back_to_start":
+            if kind != "circle":
+                step_rotate(ctx, live, how="rotate_to", theta2=start_theta if start_theta != 0 else 1e-300)
+            step_move(ctx, live, target=start_centre)
+            ctx.count("histories_returned_to_start")
+        elif s == "fault":
+            step_fault(ctx, live)
+        else:
+            STEP_FN[s](ctx, live)
     if rng.random() < 0.01:
         ctx.sample({"desc": desc, "meta": meta, "history": live.ops})
 
@@ -925,7 +1092,11 @@ def gen_matrix(rng):
     m = np.eye(4)
     m[:3, :3] = (rx @ ry @ rz) * rng.choice([0.5, 1.0, 2.0])
     m[:3, 3] = [rng.uniform(-2, 2) for _ in range(3)]
-    s = rng.choice([2.0, 0.5, -3.0, 1e-3])
+    s = rng.choice([2.0, 0.5, -3.0, 1e-3, 1e12])
+    if kind == "affine_all_scaled":
+        # (a tiny w alone, with O(1) affine terms, makes the screen coordinates a difference of O(1) numbers of size 1e-10:
+        # inherently ill-conditioned; the tiny factor is only used where it multiplies the whole matrix)
+        s = rng.choice([2.0, 0.5, -3.0, 1e-3, 1e-10, 1e12])
     if kind == "perspective":
         m[3, :3] = [rng.uniform(-0.08, 0.08), rng.uniform(-0.08, 0.08), rng.uniform(-0.15, 0.15)]
         m[3, 3] = rng.choice([1.0, 2.0, 0.5])
@@ -1004,7 +1175,8 @@ def run_instance_proj3d(ctx, big=False):
             args = tuple(np.broadcast_to(v[None, :], (3, n)) for v in (WX, WY, WZ))
         else:
             args = tuple(np.zeros((0, 4)) for _ in range(3))
-        settings = [None] if big else [None, rng.choice([1, 3, 7]), rng.choice([16, 50, 101])]
+        size = int(np.broadcast(*args).size)
+        settings = [None] if big else [None, rng.choice([1, 3, 7]), rng.choice([16, 50, 101]), max(1, size + rng.choice([-1, 0, 1]))]
         for nmax in settings:
             CHUNK[0] = nmax
             CHUNK_SEEN[0] = 0
@@ -1022,6 +1194,15 @@ def run_instance_proj3d(ctx, big=False):
             px, py, pw = project(m, xb, yb, zb)
             wmag = abs(m[3, 0]) * np.abs(xb) + abs(m[3, 1]) * np.abs(yb) + abs(m[3, 2]) * np.abs(zb) + abs(m[3, 3])
             bad_w = np.abs(pw) < 1e-6 * wmag
+            # conditioning: the projected coordinate is (sum of terms) / w; its rounding error is ~1e-16 x (sum of |terms|) / |w|.
+            # Points whose error estimate (x100) exceeds the band margin are not compared.
+            with np.errstate(all="ignore"):
+                numx = abs(m[0, 0]) * np.abs(xb) + abs(m[0, 1]) * np.abs(yb) + abs(m[0, 2]) * np.abs(zb) + abs(m[0, 3])
+                numy = abs(m[1, 0]) * np.abs(xb) + abs(m[1, 1]) * np.abs(yb) + abs(m[1, 2]) * np.abs(zb) + abs(m[1, 3])
+                err = 1e-14 * (np.maximum(numx, numy) + (np.abs(px) + np.abs(py)) * wmag) / np.abs(pw)
+            ill = ~bad_w & ~(err <= live.add * 20)
+            ctx.count("proj3d_points_excluded_ill_conditioned", int(ill.sum()))
+            bad_w = bad_w | ill
             ctx.count("proj3d_points_excluded_near_zero_w", int(bad_w.sum()))
             px = np.where(bad_w, 0.0, px)
             py = np.where(bad_w, 0.0, py)
@@ -1160,12 +1341,21 @@ def floors(counters, tier):
             out.append("fewer than 8 CategoricalROI instances of family %s" % fam)
     if g("categorical_values_wider_than_categories", 0) < 80:
         out.append("fewer than 80 CategoricalROI comparisons with tested labels wider than the region's category array")
+    for k, need in (("long_move_rotate_histories", 25), ("steps_repeated_identically", 40), ("histories_returned_to_start", 15),
+                    ("steps:fault", 40), ("fault_calls_raised", 60), ("constructed_with_theta_none", 6),
+                    ("comparisons_presentation:int_dtypes", 50),
+                    ("rotation_amount_class:none_means_zero", 8)):
+        if g(k, 0) < need:
+            out.append("fewer than %d %s" % (need, k))
+    for pt in ("python_float", "python_int", "np_float64", "np_float32", "np_int64", "vertices_python", "vertices_numpy", "vertices_tuple"):
+        if g("param_type:" + pt, 0) < (6 if pt == "np_int64" else 15):
+            out.append("too few regions built with parameter type %s" % pt)
     for mk in MATRIX_KINDS:
         if g("contains3d_calls_projection:" + mk, 0) < 40:
             out.append("fewer than 40 contains3d comparisons with projection class %s" % mk)
-    for mg in ("1e-6", "1", "1e6"):
-        if g("comparisons_magnitude:" + mg, 0) < 150:
-            out.append("fewer than 150 comparisons at coordinate magnitude %s" % mg)
+    for mg in ("1e-10", "1e-6", "1", "1e6", "1e12"):
+        if g("comparisons_magnitude:" + mg, 0) < 100:
+            out.append("fewer than 100 comparisons at coordinate magnitude %s" % mg)
     if g("polygon_closed", 0) < 25 or g("polygon_open", 0) < 25:
         out.append("fewer than 25 closed or open polygons")
     pc, pi = g("points_compared", 0), g("points_compared_inside", 0)
